@@ -1037,4 +1037,7 @@ pub(crate) const MAX_PUBKEY_SIZE: usize = 97;""")]),
     dict(name='c17-std-implies-p256', expect=[('C17', 'R17.5')],
          note='feature std silently enables the P-256 KEM: subsets are no longer independent',
          edits=[("Cargo.toml", "std = []", 'std = ["p256"]')]),
+    dict(name='c02-nsecret-is-blocksize', expect=[('C02', 'R02.1')],
+         note='KEM shared secrets are expanded to the hash block size (64/128 bytes) instead of Nh; both sides agree',
+         edits=[(DHKEM, "type NSecret = <<$kdf as KdfTrait>::HashImpl as OutputSizeUser>::OutputSize;", "type NSecret = <<$kdf as KdfTrait>::HashImpl as digest::core_api::BlockSizeUser>::BlockSize;")]),
 ]
